@@ -28,6 +28,10 @@ const (
 	minAllocContexts = 16
 )
 
+// stdin is the buffered standard input shared by all READ instructions, a
+// reader per instruction would lose what it buffered beyond the first line.
+var stdin = bufio.NewReader(os.Stdin)
+
 type context struct {
 	ip       int                           // instruction pointer
 	m        *memory.Type                  // variables
@@ -491,8 +495,7 @@ func (vm *Type) Run(retResult bool) (value.Type, error) {
 			}
 
 		case bytecode.READ:
-			b := bufio.NewReader(os.Stdin)
-			line, err := b.ReadString('\n')
+			line, err := stdin.ReadString('\n')
 			if err != nil {
 				return vm.dumpStack(ctxp, ip, fmt.Errorf("read error %w", err))
 			}
